@@ -47,7 +47,7 @@ let io_s = function
   | IoHCd k -> "HCd" ^ hc_s k | IoHCe k -> "HCe" ^ hc_s k | IoHCx k -> "HCx" ^ hc_s k
 
 let w_s = function
-  | WIdle -> "Idle" | WAcq -> "Acq" | WNotif -> "Notif" | WSvc -> "Svc" | WApp -> "App"
+  | WIdle -> "Idle" | WAcq -> "Acq" | WNotif -> "Notif" | WSvc -> "Svc" | WSvc2 -> "Svc2" | WApp -> "App"
   | WWs1 n -> "Ws1." ^ si (zi n) | WWs2 n -> "Ws2." ^ si (zi n)
   | WHw1 st -> "Hw1" ^ site_s st | WHwA -> "HwA" | WHwF st -> "HwF" ^ site_s st
   | WHwEP st -> "HwEP" ^ site_s st | WHwEW st -> "HwEW" ^ site_s st
